@@ -20,7 +20,11 @@ import math
 
 
 class Plan:
-    def __init__(self, fail_at=()):
+    def __init__(self, fail_at=(), mode="maxiter"):
+        """mode 'maxiter': a forced Newton failure is the real fsolve stopped after one iteration;
+        mode 'nan': a forced Newton failure is the real fsolve (unchanged options) on a residual that is non-finite at every
+        iterate after the initial guess (a diverged iteration: force law left its domain, overflow)"""
+        self.mode = mode
         self.fail_at = frozenset(fail_at)
         self.n = 0
         self.log = []  # dict(idx, kind, site, accepted, forced, effective)
@@ -99,6 +103,35 @@ class Interposer:
                     from cardillo.solver import SolverOptions
 
                     options = SolverOptions()
+                if forced and plan.mode == "nan":
+                    import sys
+                    import numpy as np
+
+                    st = {"n": 0, "nan": 0}
+
+                    def fun_nan(x, *a):
+                        f = fun(x, *a)
+                        # only the residual evaluations of the Newton loop itself (not those of a finite-difference Jacobian)
+                        fr, direct = sys._getframe(1), False
+                        for _ in range(8):
+                            if fr is None or fr.f_code.co_name in ("approx_fprime", "jacobian", "solve"):
+                                break
+                            if fr.f_code.co_name == "fsolve":
+                                direct = True
+                                break
+                            fr = fr.f_back
+                        if direct:
+                            st["n"] += 1
+                            if st["n"] > 1:
+                                st["nan"] += 1
+                                return np.full_like(np.atleast_1d(np.asarray(f, float)), np.nan)
+                        return f
+
+                    real_opts = getattr(options, "_real", options)
+                    res = _real(fun_nan, x0, jac=jac, fun_args=fun_args, jac_args=jac_args, inexact=inexact, options=real_opts)
+                    rec["effective"] = st["nan"] > 0
+                    rec["nan_reported_success"] = bool(res.success)
+                    return res
                 if forced:
                     res = _real(fun, x0, jac=jac, fun_args=fun_args, jac_args=jac_args, inexact=inexact, options=_failing_options(options))
                     rec["effective"] = not bool(res.success)
